@@ -149,8 +149,9 @@ def r2_attrs(ctx, cfg):
     # iterates the argument, no element skipped
     from rules.C01 import DENY_ADAPTERS
     bad = [t["callee"]["key"] for b, t in f.calls() if t["callee"]["name"] in DENY_ADAPTERS and not t["callee"]["local"]]
-    it = [(b, t) for b, t in f.calls() if t["callee"]["name"] == "into_iter"]
-    ok = len(it) == 1 and is_param(P.call_args(f, it[0][1], it[0][0])[0], "attributes") and not bad
+    loops = q.loops_of(P, f)
+    from vlib.prov import strip_adapters
+    ok = len(loops) == 1 and is_param(strip_adapters(loops[0][1]), "attributes") and not bad and not (set(q.chain_adapters(loops[0][1])) & DENY_ADAPTERS)
     ctx.ob(R, key, "every-attribute-checked", ok, "verify_attributes does not iterate all of its argument (adapters: %s)" % bad, fn=f, sample="for attr in attributes")
     # Ok(()) only after the loop finished (dominated by next()==None)
     for b2, i2, st in f.stmts():
@@ -159,6 +160,7 @@ def r2_attrs(ctx, cfg):
             if o[0] == "agg" and o[1].endswith("Result::Ok"):
                 conds = q.dominating_conditions(P, f, b2)
                 ok = any(c[0] == "variant_in" and c[2] == ("None",) and peel(c[1])[0] == "call" and peel(c[1])[1].endswith("Iterator::next") for e, c in conds)
+                # (a desugared try_for_each yields `Ok(())` from its exhausted arm: same condition)
                 ctx.ob(R, key, "Ok-only-after-all-attributes", ok, "Ok(()) is returned before the iteration finished", fn=f, line=st["line"],
                        sample="Ok(()) dominated by next()==None")
 
